@@ -5,7 +5,7 @@ use crate::{
 };
 use ark_crypto_primitives::sponge::{Absorb, CryptographicSponge};
 use ark_ec::{AffineRepr, CurveGroup, VariableBaseMSM};
-use ark_ff::PrimeField;
+use ark_ff::{PrimeField, Zero};
 use ark_poly::MultilinearExtension;
 use ark_serialize::serialize_to_vec;
 use ark_std::{marker::PhantomData, rand::RngCore, string::ToString, vec::Vec, UniformRand};
@@ -352,11 +352,10 @@ where
 
             let eval = inner_product(&lt, &r);
 
-            // Singleton commit
-            let (com_eval, r_eval) = {
-                let r = G::ScalarField::rand(rng_inner);
-                ((ck.com_key[0] * eval + ck.h * r).into(), r)
-            };
+            // Singleton commit. The evaluation is revealed to the verifier, who must be able to
+            // recompute this commitment from the claimed value: it carries no blinding term.
+            let r_eval = G::ScalarField::zero();
+            let com_eval: G = (ck.com_key[0] * eval).into();
 
             // ******** Dot product argument ********
             // Appendix A.2 in the reference article
@@ -416,7 +415,7 @@ where
         vk: &Self::VerifierKey,
         commitments: impl IntoIterator<Item = &'a LabeledCommitment<Self::Commitment>>,
         point: &'a P::Point,
-        _values: impl IntoIterator<Item = G::ScalarField>,
+        values: impl IntoIterator<Item = G::ScalarField>,
         proof: &Self::Proof,
         sponge: &mut impl CryptographicSponge,
         _rng: Option<&mut dyn RngCore>,
@@ -444,17 +443,20 @@ where
         let l = tensor_prime(point_lower);
         let r = tensor_prime(point_upper);
 
-        // One proof element per commitment: a shorter list would leave claims unchecked
+        // One proof element and one claimed value per commitment: a shorter list would leave
+        // claims unchecked
         let commitments: Vec<_> = commitments.into_iter().collect();
-        if commitments.len() != proof.len() {
+        let values: Vec<_> = values.into_iter().collect();
+        if commitments.len() != proof.len() || commitments.len() != values.len() {
             return Err(Error::IncorrectInputLength(format!(
-                "expected one proof per commitment: {} commitments, {} proofs",
+                "expected one proof and one value per commitment: {} commitments, {} proofs, {} values",
                 commitments.len(),
-                proof.len()
+                proof.len(),
+                values.len()
             )));
         }
 
-        for (com, h_proof) in commitments.into_iter().zip(proof.iter()) {
+        for ((com, h_proof), value) in commitments.into_iter().zip(proof.iter()).zip(values) {
             let row_coms = &com.commitment().row_coms;
 
             // extract each field from h_proof
@@ -472,6 +474,11 @@ where
                     encountered: row_coms.len(),
                     expected: 1 << n / 2,
                 });
+            }
+
+            // The evaluation commitment must be the (unblinded) commitment to the claimed value
+            if *com_eval != (vk.com_key[0] * value).into() {
+                return Ok(false);
             }
 
             // Absorbing public parameters
